@@ -764,12 +764,22 @@ def suggest_clauses(st, it, c, res, mode):
     emo = [i for i, x in enumerate(items) if cls(x) == V["Emoji"]]
     lit = [i for i, x in enumerate(items) if cls(x) == V["Last"] and not is_sym(num(x)) and num(x) == 1]
     clauses.append(("ansi_offers_no_emoji_or_raw_text", z3.Implies(ansi, z3.BoolVal(len(emo) == 0 and len(lit) == 0 and len(raw) == 0))))
+    # ... whatever class it carries, no candidate IS the typed text (unless the typed text is its own transliteration) or an emoji of the tables
+    if word is not None and len(word) > 0:
+        cw0 = orc.memo.get(("conv", key_of_elems(word)))
+        raw_differs0 = z3.Not(seq_eq(list(cw0), list(word))) if cw0 is not None and len(cw0) == len(word) else z3.BoolVal(True)
+        banned0 = [list(e) for e in (orc.memo.get(("emoji_name", key_of_elems(word))) or [])]
+        ek0 = orc.memo.get(("emoticon", key_of_elems(term)))
+        hits0 = [texts_equal_any(texts, cpre + b0 + ctrail) for b0 in banned0] + [z3.And(raw_differs0, texts_equal_any(texts, list(term)))]
+        if ek0:
+            hits0.append(texts_equal_any(texts, list(ek0)))
+        clauses.append(("ansi_offers_nothing_it_cannot_encode", z3.Implies(ansi, z3.Not(z3.Or(hits0)))))
     # ---- C18: emoticon / emoji names
     ek = ("emoticon", key_of_elems(term))
     if ek in orc.memo and orc.memo[ek] is not None:
         e = orc.memo[ek]
         clauses.append(("emoticon_offers_its_emoji_and_keeps_the_literal_text",
-                        z3.Implies(z3.Not(ansi), z3.And(texts_equal_any(texts, e), count_equal(texts, term) == 1))))
+                        z3.Implies(z3.Not(ansi), z3.And(texts_equal_any(texts, e), count_equal(texts, term) >= 1))))
         clauses.append(("cover:emoticon", z3.Not(ansi)))
     elif word is not None and len(word) > 0:
         nk = ("emoji_name", key_of_elems(word))
@@ -1174,6 +1184,39 @@ def learn_search(vs):
                 t, i, lst[i], s2, l2[s2] if s2 < len(l2) else None, rr[-1].get("content"))
             if role not in found:      # one finding per role: a listed known finding must not hide another kind of loss
                 found[role] = ({"steps": scs2[meta.index((t, i, lst))]["steps"]}, rr[-3:], what, role)
+    # a choice learned for a BASE decides the preselection of base + suffix; committing another candidate of the suffixed word then (the
+    # first one included) must be remembered for the suffixed word
+    cfg0 = {"layout": "avro_phonetic", "database": REPO + "/data", "opts": {"phonetic_suggestion": True}}
+    two = []
+    for base in ("as", "boi", "kal", "desh"):
+        for sfx in ("e", "er", "gulo"):
+            for pick in (0, 1):
+                steps = [{"op": "new", "config": cfg0}] + [{"op": "key", "key": keys[ch], "sel": 0} for ch in base] + [{"op": "commit", "index": 1}]
+                steps += [{"op": "key", "key": keys[ch], "sel": 0} for ch in base + sfx] + [{"op": "get_state"}]
+                two.append((base, sfx, pick, steps))
+    firsts = run_replay_parallel([{"steps": x[3]} for x in two])
+    seconds = []
+    for (base, sfx, pick, steps), r in zip(two, firsts):
+        rr = r["results"]
+        if any("panic" in x for x in rr):
+            continue
+        lst = rr[-2].get("suggestion", {}).get("list", [])
+        sel = rr[-1].get("state", {}).get("prev_selection", 0)
+        if pick == sel or pick >= len(lst):
+            continue
+        st3 = steps[:-1] + [{"op": "commit", "index": pick}] + [{"op": "key", "key": keys[ch], "sel": 0} for ch in base + sfx] + [{"op": "get_state"}, {"op": "read_user_file", "name": "phonetic-candidate-selection.json"}]
+        seconds.append((base, sfx, pick, lst, sel, {"steps": st3}))
+    for (base, sfx, pick, lst, sel, sc), r in zip(seconds, run_replay_parallel([x[5] for x in seconds])):
+        rr = r["results"]
+        if any("panic" in x for x in rr):
+            continue
+        l2 = rr[-3].get("suggestion", {}).get("list", [])
+        s2 = rr[-2].get("state", {}).get("prev_selection", 0)
+        if s2 >= len(l2) or l2[s2] != lst[pick]:
+            role = "learned choice lost: a suffixed word whose preselection came from its base"
+            if role not in found:
+                found[role] = (sc, rr[-3:], "%r learned (candidate 1); %r then shows %s with candidate %d preselected (from the base); candidate %d (%r) committed instead; typed again: "
+                               "candidate %s (%r) is preselected; store: %s" % (base, base + sfx, lst[:4], sel, pick, lst[pick], s2, l2[s2] if s2 < len(l2) else None, rr[-1].get("content")), role)
     return list(found.values()) or None
 
 
@@ -1626,7 +1669,7 @@ def emoji_search(vs):
             return sc, last, "typing %r panics: %s" % (t, last["panic"]), None
         lst = last.get("suggestion", {}).get("list", [])
         if kind == "emoticon":
-            if want[0] not in lst or lst.count(t) != 1:
+            if want[0] not in lst or lst.count(t) < 1:      # "stays available": at least once (a repeat is C07's business)
                 return sc, last, "emoticon %r: offered %s; its emoji %r %s, the literal text occurs %d time(s)" % (
                     t, lst, want[0], "is offered" if want[0] in lst else "is missing", lst.count(t)), "emoticon does not offer its emoji / literal text"
         else:
@@ -1671,11 +1714,42 @@ def translit_search(vs):
     return None
 
 
+def ansi_text_search(vs):
+    """Native: with ANSI output on (from the start, or switched on by update_engine while idle) no candidate of any bundled emoticon, emoji
+    name or auto-correct key is the typed text itself or an emoji."""
+    keys = char_keys()
+    data = bundled_data()
+    tables = run_replay([{"steps": [{"op": "emoji_tables"}]}])[0]["results"][0]
+    all_emoji = set(e for v in tables.get("names", {}).values() for e in v) | set(tables.get("emoticons", {}).values())
+    texts = [t for t in list(tables.get("emoticons", {}))[:400] + list(tables.get("names", {}))[:150] + [k for k, v in data["autocorrect"].items() if k == v][:200] + ["ami", "cool"]
+             if t and all(ch in keys for ch in t)]
+    texts = list(dict.fromkeys(texts))
+    scs, meta = [], []
+    for t in texts:
+        for eng in (False, True):
+            on = {"layout": "avro_phonetic", "database": REPO + "/data", "opts": {"phonetic_suggestion": True, "ansi": True, "english": eng, "smart_quote": False}}
+            scs.append({"steps": [{"op": "new", "config": on}] + [{"op": "key", "key": keys[ch], "sel": 0} for ch in t] + [{"op": "okkhor", "text": t}]})
+            meta.append((t, eng))
+    for (t, eng), sc, r in zip(meta, scs, run_replay_parallel(scs)):
+        rr = r["results"]
+        last = rr[-2]
+        if "panic" in last:
+            continue
+        lst = last.get("suggestion", {}).get("list", [])
+        tr = rr[-1].get("text")
+        bad = [x for x in lst if x in all_emoji or (x == t and tr != t)]
+        if bad:
+            return sc, last, "ANSI output on (English option %s): typed %r offers %s - %r cannot be encoded" % (eng, t, lst, bad[0]), "ANSI mode offers the typed text or an emoji"
+    return None
+
+
 def obl_emoji(check, conv_table, thorough=False, budget_s=None):
     kw = dict(mode="single", dict_max=1, emoji_count=2, suffixes=False, selections=False, autocorrect=False, user_autocorrect=False, dist_mode="fixed",
               preconsult_emoji=True)
     shapes = base_shapes((WRAPPERS_QUICK + [("", ",,"), (",,", "")]) if thorough else (WRAPPERS_QUICK[:6] + [("", ",,")]), [1, 2] if thorough else [1], conv_table, **kw)
     shapes += special_term_shapes(SPECIAL_TERMS + [":`)", "(:`)", ":`:`", "a:`", "`", "``"], **dict(kw, preconsult_emoji=False))
+    # auto-correct entries (bundled and the user's, values any letters - also the key itself): under ANSI nothing of the typed text comes through
+    shapes += base_shapes([("", ""), ("\"", "\"")], [1], conv_table, **dict(kw, autocorrect=True, user_autocorrect=True, emoji_names=False, emoticons=False, preconsult_emoji=False))
     # names with a hyphen or an underscore inside (`t-rex`): the middle character of a three-character word ranges over them too
     shapes += base_shapes([("", "")], [3], conv_table, **dict(kw, inner_marks=True, emoticons=False, dict_max=0, fixed={"smart_quote": False, "include_english": False}))
     check.bounds["assembly_emoji"] = dict(word="1%s symbolic letters/digits" % ("-2" if thorough else ""), wrappers=[s["pre"] + "W" + s["trail"] for s in shapes][:12],
@@ -1684,7 +1758,7 @@ def obl_emoji(check, conv_table, thorough=False, budget_s=None):
     run_suggest_obligation(check, "assembly_emoji", shapes, ["cover:emoticon", "cover:emoji_name"],
                            confirmers={"emoticon_offers_its_emoji_and_keeps_the_literal_text": emoji_search,
                                        "emoji_name_offers_all_its_emoji_in_table_order_wrapped": emoji_search,
-                                       "transliteration_is_a_candidate": translit_search}, budget_s=budget_s)
+                                       "transliteration_is_a_candidate": translit_search, "ansi_offers_nothing_it_cannot_encode": ansi_text_search}, budget_s=budget_s)
 
 
 def quote_pair_search(vs):
@@ -2690,8 +2764,19 @@ def make_regex_hygiene(shape):
         st.ctx = dict(word=word, patterns=[], tables=[])
 
         def regex_new(it2, args, callee):
-            from mirsym.values import ok
-            st.ctx["patterns"].append(list(elems_of(args[0])))
+            from mirsym.values import err, ok
+            pat = list(elems_of(args[0]))
+            st.ctx["patterns"].append(pat)
+            # contract of the engine: `^literal[class]{0,k}$` compiles when the literal has no character the pattern language gives a
+            # meaning to; with such a character it may be rejected (what the caller does with the error is the caller's business)
+            cut = None
+            for i in range(len(pat) - 1, 0, -1):
+                if not is_sym(pat[i]) and pat[i] == ord("["):
+                    cut = i
+                    break
+            lit = pat[1:cut] if cut else []
+            if lit and it2.st.branch(simp(z3.Or([zin(x, REGEX_META) for x in lit]))):
+                return err(Opaque("regex::Error"))
             return ok(Opaque("Regex"))
 
         def words_for(it2, args, callee):
